@@ -75,13 +75,13 @@ theorem lineOfText_lens (m : Model) (n : Nat) (t : Txt) (h : (lineOfText m n t).
       (noiseSem m.mm.ports.length).used.length = m.mm.ports.length := by simp [noiseSem, zeros]
   unfold lineOfText at h ⊢
   cases hp : parseLine t with
-  | err e => simp only [hp, semOf, PLine.isInstr]; exact hnoise
+  | err e => simp only [semOf, PLine.isInstr]; exact hnoise
   | ok f =>
     simp only [hp, lineOf] at h ⊢
     cases hs : semOfStages m (stagesOf m f) with
     | error e => simp [hs] at h
     | ok s =>
-      simp only [hs, semOf]
+      simp only [semOf]
       split
       · exact semOfStages_lens m f s hs
       · exact hnoise
